@@ -95,7 +95,7 @@ def table(inp):
         base = full + [ver_ok, cmd_ok, trn_ok, T.eq0(T.sub(f['fam'], I(fcode)))]
         if sz > 0:
             row('length-below-%s-block' % fam, base + [T.cmp('Lt', L, I(sz))],
-                C12=err('InvalidAddresses', L, I(sz)), C02=ERR(ANY))
+                C12=err('InvalidAddresses', L, I(sz)), C02=ERR(ANY), C17=('not_err_variants', ('Partial', 'Incomplete')), C05=None)
         row('payload-incomplete/%s' % fam, base + [T.cmp('Ge', L, I(sz)), T.cmp('Lt', n, T.add(I(16), L))],
             C17=err('Partial', T.sub(n, I(16)), L), C05=err('Partial', ANY, ANY), C02=ERR(ANY))
         for ccode, cmd in COMMANDS.items():
